@@ -11,43 +11,56 @@ from harness.extract import generator, ExtractError, lean_str, unparse
 REL = 'starsim/arrays.py'
 PREL = 'starsim/people.py'
 
-NAMES = {'n_new': 'nNew', 'self.len_tot': 'lenTot', 'orig_len': 'origLen', 'n_grow': 'nGrow', 'self.len_used': 'lenUsed'}
+class Sym:
+    """ Symbolic straight-line evaluation of Arr.grow over (origLen, nNew, lenTot): robust to renamed locals / reordering """
+    def __init__(self):
+        self.env = {'self.len_used': 'origLen', 'self.len_tot': 'lenTot'}
+
+    def expr(self, node):
+        if isinstance(node, ast.Constant) and isinstance(node.value, int) and not isinstance(node.value, bool) and node.value >= 0:
+            return str(node.value)
+        if isinstance(node, (ast.Name, ast.Attribute)):
+            s = unparse(node)
+            if s in self.env:
+                return self.env[s]
+            raise ExtractError(f'Arr.grow: name {s!r} has no symbolic value in the growth rule')
+        if isinstance(node, ast.Call) and isinstance(node.func, ast.Name) and node.func.id == 'len' and len(node.args) == 1:
+            a = unparse(node.args[0])
+            if a == 'new_uids': return 'nNew'
+            if a == 'self.raw': return self.env['self.len_tot']
+            raise ExtractError(f'Arr.grow: len({a}) not understood')
+        if isinstance(node, ast.BinOp):
+            ops = {ast.Add: '+', ast.Mult: '*', ast.FloorDiv: '/', ast.Sub: '-'}
+            for k, v in ops.items():
+                if isinstance(node.op, k):
+                    return f'({self.expr(node.left)} {v} {self.expr(node.right)})'
+            raise ExtractError(f'Arr.grow: unsupported operator in {unparse(node)!r}')
+        if isinstance(node, ast.Call) and isinstance(node.func, ast.Name) and node.func.id in ('max', 'min') and len(node.args) == 2 and not node.keywords:
+            return f'(Nat.{node.func.id} {self.expr(node.args[0])} {self.expr(node.args[1])})'
+        raise ExtractError(f'Arr.grow: unsupported expression {unparse(node)!r}')
+
+    def cond(self, node):
+        if isinstance(node, ast.Compare) and len(node.ops) == 1:
+            ops = {ast.Gt: '>', ast.Lt: '<', ast.GtE: '≥', ast.LtE: '≤', ast.Eq: '=', ast.NotEq: '≠'}
+            for k, v in ops.items():
+                if isinstance(node.ops[0], k):
+                    return f'decide ({self.expr(node.left)} {v} {self.expr(node.comparators[0])})'
+        raise ExtractError(f'Arr.grow: unsupported condition {unparse(node)!r}')
+
+    def assign(self, st):
+        """ record `x = e` / `x += e` when e is an integer expression we understand; otherwise forget x """
+        if isinstance(st, ast.Assign) and len(st.targets) == 1:
+            t = unparse(st.targets[0])
+            try: self.env[t] = self.expr(st.value)
+            except ExtractError: self.env.pop(t, None)
+        elif isinstance(st, ast.AugAssign) and isinstance(st.op, ast.Add):
+            t = unparse(st.target)
+            try: self.env[t] = f'({self.env[t]} + {self.expr(st.value)})'
+            except (ExtractError, KeyError): self.env.pop(t, None)
 
 
-def nat_expr(node):
-    """ Translate an integer expression over the names of Arr.grow into a Lean Nat expression (fails closed) """
-    if isinstance(node, ast.Constant) and isinstance(node.value, int) and not isinstance(node.value, bool) and node.value >= 0:
-        return str(node.value)
-    if isinstance(node, (ast.Name, ast.Attribute)):
-        s = unparse(node)
-        if s in NAMES:
-            return NAMES[s]
-        raise ExtractError(f'Arr.grow: unknown name {s!r} in the growth rule')
-    if isinstance(node, ast.BinOp):
-        ops = {ast.Add: '+', ast.Mult: '*', ast.FloorDiv: '/', ast.Sub: '-'}
-        for k, v in ops.items():
-            if isinstance(node.op, k):
-                return f'({nat_expr(node.left)} {v} {nat_expr(node.right)})'
-        raise ExtractError(f'Arr.grow: unsupported operator in {unparse(node)!r}')
-    if isinstance(node, ast.Call) and isinstance(node.func, ast.Name) and node.func.id in ('max', 'min') and len(node.args) == 2 and not node.keywords:
-        return f'(Nat.{node.func.id} {nat_expr(node.args[0])} {nat_expr(node.args[1])})'
-    raise ExtractError(f'Arr.grow: unsupported expression {unparse(node)!r}')
-
-
-def bool_expr(node):
-    if isinstance(node, ast.Compare) and len(node.ops) == 1:
-        ops = {ast.Gt: '>', ast.Lt: '<', ast.GtE: '≥', ast.LtE: '≤', ast.Eq: '==', ast.NotEq: '!='}
-        for k, v in ops.items():
-            if isinstance(node.ops[0], k):
-                return f'decide ({nat_expr(node.left)} {v} {nat_expr(node.comparators[0])})'
-    raise ExtractError(f'Arr.grow: unsupported condition {unparse(node)!r}')
-
-
-def single_return(fn, what):
-    body = [s for s in fn.body if not (isinstance(s, ast.Expr) and isinstance(s.value, ast.Constant))]
-    if len(body) != 1 or not isinstance(body[0], ast.Return):
-        raise ExtractError(f'{what}: expected a single return statement, found {[unparse(s)[:60] for s in body]}')
-    return unparse(body[0].value)
+def fn_src(fn):
+    return ' '.join(unparse(s) for s in fn.body if not (isinstance(s, ast.Expr) and isinstance(s.value, ast.Constant)))
 
 
 def nan_default(src, cls):
@@ -70,60 +83,99 @@ def nan_default(src, cls):
 @generator('ArrConsts', [REL, PREL])
 def gen(src):
     grow = src.func(REL, 'grow', 'Arr')
-    # --- Arr.grow: the statement skeleton we model -------------------------------------------------
+    # --- Arr.grow: symbolic evaluation of the straight-line integer bookkeeping ------------------------
+    sym = Sym()
     realloc_if = None
     for st in grow.body:
         if isinstance(st, ast.If):
             if realloc_if is not None:
                 raise ExtractError('Arr.grow: more than one top-level if')
             realloc_if = st
+            break
+        sym.assign(st)
     if realloc_if is None or realloc_if.orelse:
         raise ExtractError('Arr.grow: reallocation `if` not found (or has an else branch)')
-    cond = bool_expr(realloc_if.test)
-    n_grow = None; nan_if = None
+    # the condition is evaluated after `self.len_used += n_new`: express it over the entry values
+    cond_src = unparse(realloc_if.test)
+    cond = sym.cond(realloc_if.test)
+    used_after = sym.env.get('self.len_used')
+    n_grow = None; nan_if = None; grow_var = None; concat_seen = False
     for st in realloc_if.body:
-        if isinstance(st, ast.Assign) and unparse(st.targets[0]) == 'n_grow':
-            n_grow = nat_expr(st.value)
         if isinstance(st, ast.If):
             nan_if = st
-    if n_grow is None:
-        raise ExtractError('Arr.grow: n_grow = <expr> not found')
+            continue
+        if isinstance(st, ast.Assign) and isinstance(st.value, ast.Call) and unparse(st.value.func) == 'np.empty':
+            # new_empty = np.empty(<n_grow>, ...): the amount appended
+            n_grow = sym.expr(st.value.args[0]); grow_var = unparse(st.value.args[0])
+            continue
+        if isinstance(st, ast.Assign) and unparse(st.targets[0]) == 'self.raw':
+            concat_seen = 'np.concatenate' in unparse(st.value) and 'self.raw' in unparse(st.value)
+            continue
+        if isinstance(st, ast.Assign) and unparse(st.targets[0]) == 'self.len_tot':
+            if unparse(st.value) != 'len(self.raw)':
+                raise ExtractError(f'Arr.grow: self.len_tot = {unparse(st.value)} (expected len(self.raw))')
+            continue
+        sym.assign(st)
+    if n_grow is None or not concat_seen:
+        raise ExtractError('Arr.grow: `np.empty(n_grow)` appended to self.raw not found')
     if nan_if is None or nan_if.orelse:
         raise ExtractError('Arr.grow: nan-fill `if` not found')
-    nan_cond = bool_expr(nan_if.test)
-    nan_body = [unparse(s) for s in nan_if.body]
-    if nan_body != ['nan_uids = np.arange(self.len_used, self.len_tot)', 'self.set_nan(nan_uids)']:
-        raise ExtractError(f'Arr.grow: nan-fill body changed: {nan_body}')
-    stmts = [unparse(s) for s in grow.body if not isinstance(s, (ast.If, ast.Expr)) or (isinstance(s, ast.Expr) and not isinstance(s.value, ast.Constant))]
-    expect = ['orig_len = self.len_used', 'n_new = len(new_uids)', 'self.len_used += n_new',
-              'self.set(new_uids, new_vals=new_vals)', 'return']
-    if stmts != expect:
-        raise ExtractError(f'Arr.grow: statement skeleton changed: {stmts}')
-    inner = [unparse(s) for s in realloc_if.body if not isinstance(s, ast.If)]
-    expect_inner = [None, 'new_empty = np.empty(n_grow, dtype=self.dtype)', 'self.raw = np.concatenate([self.raw, new_empty], axis=0)',
-                    'self.len_tot = len(self.raw)']
-    if len(inner) != 4 or inner[1:] != expect_inner[1:]:
-        raise ExtractError(f'Arr.grow: reallocation body changed: {inner}')
+    sym.env[grow_var] = 'nGrow'
+    nan_cond = sym.cond(nan_if.test)
+    nan_body = ' '.join(unparse(s) for s in nan_if.body)
+    if 'set_nan' not in nan_body or 'self.len_used' not in nan_body or 'self.len_tot' not in nan_body:
+        raise ExtractError(f'Arr.grow: nan-fill body does not nan-fill [len_used, len_tot): {nan_body}')
+    if used_after != '(origLen + nNew)':
+        raise ExtractError(f'Arr.grow: len_used after the bump is {used_after}, expected origLen + nNew')
+    tail = ' '.join(unparse(s) for s in grow.body[grow.body.index(realloc_if) + 1:])
+    if 'self.set(new_uids' not in tail:
+        raise ExtractError('Arr.grow: the new values are not written by self.set(new_uids, ...) after the reallocation')
     # --- the active views --------------------------------------------------------------------------
     views = dict(
-        values=single_return(src.func(REL, 'values', 'Arr'), 'Arr.values'),
-        true=single_return(src.func(REL, 'true', 'Arr'), 'Arr.true'),
-        false=single_return(src.func(REL, 'false', 'Arr'), 'Arr.false'),
-        len=single_return(src.func(REL, '__len__', 'Arr'), 'Arr.__len__'),
-        booluids=single_return(src.func(REL, 'uids', 'BoolArr'), 'BoolArr.uids'),
-        indexuids=single_return(src.func(REL, 'uids', 'IndexArr'), 'IndexArr.uids'),
+        values=fn_src(src.func(REL, 'values', 'Arr')),
+        true=fn_src(src.func(REL, 'true', 'Arr')),
+        false=fn_src(src.func(REL, 'false', 'Arr')),
+        len=fn_src(src.func(REL, '__len__', 'Arr')),
+        booluids=fn_src(src.func(REL, 'uids', 'BoolArr')),
+        indexuids=fn_src(src.func(REL, 'uids', 'IndexArr')),
     )
-    # Which storage does each view read?  ('active' = goes through self.auids; 'storage' = a prefix/all of raw)
+    # Which storage does each view read?  ('active' = goes through self.auids, directly or via values/true())
     def view_kind(expr):
-        return 'active' if 'self.auids' in expr or expr in ('self.true()', 'self.values') else 'storage'
+        return 'active' if any(t in expr for t in ('self.auids', 'self.true()', 'self.values')) else 'storage'
     kinds = {k: view_kind(v) for k, v in views.items()}
-    # --- _convert_key dispatch (ordered isinstance chain) --------------------------------------------
+    # --- _convert_key dispatch: ordered chain classified into (key kinds, action) ---------------------
     ck = src.func(REL, '_convert_key', 'Arr')
     chain = []
     node = [s for s in ck.body if isinstance(s, ast.If)]
     if len(node) != 1:
         raise ExtractError('Arr._convert_key: expected one if/elif chain')
     node = node[0]
+
+    def classify_test(t):
+        if t == 'else': return ['else']
+        kinds = []
+        if 'isinstance' in t:
+            inner = t[t.index('('):]
+            for nm, k in (('uids', 'uids'), ('ss_int', 'int'), ('int', 'int'), ('BoolArr', 'boolarr'), ('IndexArr', 'indexarr'), ('slice', 'slice'), ('np.ndarray', 'ndarray')):
+                import re
+                if re.search(r'(?<![\w.])' + re.escape(nm) + r'(?![\w])', inner) and k not in kinds:
+                    kinds.append(k)
+            if 'reticulate' in t: kinds = [k + '-reticulate' for k in kinds]
+        elif 'len(key) == 0' in t:
+            kinds = ['empty']
+        if not kinds:
+            raise ExtractError(f'Arr._convert_key: cannot classify the test {t!r}')
+        return sorted(kinds)
+
+    def classify_action(b):
+        if b == 'return key': return 'identity'
+        if b == 'return key.uids': return 'key.uids'
+        if b == 'return self.auids[key]': return 'auids[key]'
+        if b == 'return uids()': return 'empty'
+        if b == 'return key.astype(int)': return 'astype'
+        if b.startswith('raise '): return 'raise'
+        raise ExtractError(f'Arr._convert_key: cannot classify the action {b!r}')
+
     while True:
         body = [unparse(s) for s in node.body if not (isinstance(s, ast.Assign) and unparse(s.targets[0]) == 'errormsg')]
         chain.append((unparse(node.test), '; '.join(body)))
@@ -133,13 +185,18 @@ def gen(src):
             els = [unparse(s) for s in node.orelse if not (isinstance(s, ast.Assign) and unparse(s.targets[0]) == 'errormsg')]
             chain.append(('else', '; '.join(els)))
             break
-    getitem = [unparse(s) for s in src.func(REL, '__getitem__', 'Arr').body]
-    setitem = [unparse(s) for s in src.func(REL, '__setitem__', 'Arr').body]
-    # int keys: does the converter map an int through the active index?
-    int_rows = [(t, b) for t, b in chain if 'int' in t.replace('ss_int', 'int').replace('.astype(int)', '') and 'isinstance' in t and 'ndarray' not in t]
+    table = [('+'.join(classify_test(t)), classify_action(b)) for t, b in chain]
+    getitem = fn_src(src.func(REL, '__getitem__', 'Arr'))
+    setitem = fn_src(src.func(REL, '__setitem__', 'Arr'))
+    if '_convert_key' not in getitem or 'self.raw[' not in getitem or '_convert_key' not in setitem or 'self.raw[' not in setitem:
+        raise ExtractError('Arr.__getitem__/__setitem__ no longer funnel through _convert_key into self.raw')
+    int_rows = [(k, a) for k, a in table if 'int' in k.split('+')]
     if not int_rows:
         raise ExtractError('Arr._convert_key: no branch handles int keys')
-    int_via_active = 'auids' in int_rows[0][1]
+    int_via_active = int_rows[0][1] == 'auids[key]'
+    if int_via_active:
+        # a repaired tree would treat ints in their own branch; the table below then lists it as auids[key]
+        pass
     # --- nan defaults --------------------------------------------------------------------------------
     nans = dict(FloatArr=nan_default(src, 'FloatArr'), BoolArr=nan_default(src, 'BoolArr'), IndexArr=nan_default(src, 'IndexArr'))
     if nans['IndexArr'] != '-1':
@@ -162,11 +219,11 @@ def gen(src):
     rq = [unparse(s) for s in src.func(PREL, 'request_death', 'People').body if isinstance(s, ast.Assign)]
 
     def b(x): return 'true' if x else 'false'
-    rows = ',\n  '.join(f'({lean_str(t)}, {lean_str(bd)})' for t, bd in chain)
+    rows = ',\n  '.join(f'({lean_str(t)}, {lean_str(bd)})' for t, bd in table)
     body = f'''namespace StarsimModel.Gen
-/-- `Arr.grow`: reallocate when `{unparse(realloc_if.test)}` -/
+/-- `Arr.grow`: reallocate when `{cond_src}` (evaluated symbolically over the values at entry) -/
 def needsRealloc (origLen nNew lenTot : Nat) : Bool := {cond}
-/-- `Arr.grow`: `n_grow = {unparse([s for s in realloc_if.body if isinstance(s, ast.Assign)][0].value)}` -/
+/-- `Arr.grow`: the number of cells appended -/
 def growAmount (nNew lenTot : Nat) : Nat := {n_grow}
 /-- `Arr.grow`: the tail beyond `len_used` is filled with `nan` when `{unparse(nan_if.test)}` -/
 def nanFillTail (nGrow nNew : Nat) : Bool := {nan_cond}
@@ -179,7 +236,7 @@ def boolUidsViaActive : Bool := {b(kinds['booluids'] == 'active')}
 def indexUidsViaActive : Bool := {b(kinds['indexuids'] == 'active')}
 /-- `Arr._convert_key`: does an `int` key go through the active index?  (`false` today: it indexes storage) -/
 def intKeyViaActive : Bool := {b(int_via_active)}
-/-- `Arr._convert_key`: ordered (test, action) chain -/
+/-- `Arr._convert_key`: ordered (key kinds tested, action) chain -/
 def convertKeyChain : List (String × String) := [
   {rows}]
 /-- `IndexArr` nan -/
@@ -190,7 +247,7 @@ def peopleGrowLoops : List String := [{', '.join(lean_str(g) for g in loops)}]
 end StarsimModel.Gen
 '''
     facts = dict(realloc_if=unparse(realloc_if.test), n_grow=n_grow, nan_if=unparse(nan_if.test), views=views, view_kinds=kinds,
-                 convert_key=[list(c) for c in chain], getitem=getitem, setitem=setitem, int_via_active=int_via_active, nans=nans,
+                 convert_key=[list(c) for c in chain], convert_key_table=[list(c) for c in table], getitem=getitem, setitem=setitem, int_via_active=int_via_active, nans=nans,
                  people_grow=dict(core=grown_core, all=grown, loops=loops, auids=auids_update),
                  remove_dead=rd_assign, update_results=ur_assign, step_die=sd_stmts, request_death=rq)
     return body, facts
